@@ -501,6 +501,76 @@ let say fmt = Printf.ksprintf (fun s -> incr findings; print_endline s) fmt
 
 let sorted_kvs (l : kv list) = List.sort compare (List.map kv_text l)
 
+(* ---------- extraction self-test: the sampled steps as Coq terms, and the extracted digest ---------- *)
+let coq_z (x : z) : string = let t = string_of_z x in if String.length t > 0 && t.[0] = '-' then "(" ^ t ^ ")" else t
+let coq_list (f : 'a -> string) (l : 'a list) : string = "[" ^ String.concat "; " (List.map f l) ^ "]"
+let coq_kv (e : kv) : string = Printf.sprintf "(mkKV %s %s %s)" (coq_z e.k_id) (coq_z e.k_stamp) (coq_z e.v_val)
+let coq_table (t : kv table) : string =
+  Printf.sprintf "(mkTable %d%%nat %s %s %s %s)" (int_of_nat t.mask) (coq_list coq_z t.ctrl)
+    (coq_list (fun o -> match o with Some e -> "Some " ^ coq_kv e | None -> "None") t.slots) (coq_z t.items) (coq_z t.growth_left)
+(* the operations the self-test samples (None: not sampled) with the key ids they mention *)
+let coq_op (op : map_op) : (string * z list) option =
+  let z3 n a b c = Some (Printf.sprintf "(%s %s %s %s)" n (coq_z a) (coq_z b) (coq_z c), [a]) in
+  let z2 n a b = Some (Printf.sprintf "(%s %s %s)" n (coq_z a) (coq_z b), [a]) in
+  let z1 n a = Some (Printf.sprintf "(%s %s)" n (coq_z a), [a]) in
+  (match op with
+   | OpInsert (a, b, c) -> z3 "OpInsert" a b c
+   | OpGet a -> z1 "OpGet" a
+   | OpGetKeyValue a -> z1 "OpGetKeyValue" a
+   | OpContains a -> z1 "OpContains" a
+   | OpGetMut (a, b) -> z2 "OpGetMut" a b
+   | OpRemove a -> z1 "OpRemove" a
+   | OpRemoveEntry a -> z1 "OpRemoveEntry" a
+   | OpTryInsert (a, b, c) -> z3 "OpTryInsert" a b c
+   | OpEntryOrInsert (a, b, c) -> z3 "OpEntryOrInsert" a b c
+   | OpEntryInsert (a, b, c) -> z3 "OpEntryInsert" a b c
+   | OpEntryRemove (a, b) -> z2 "OpEntryRemove" a b
+   | OpEntryAndModify (a, b, c, d) -> Some (Printf.sprintf "(OpEntryAndModify %s %s %s %s)" (coq_z a) (coq_z b) (coq_z c) (coq_z d), [a])
+   | OpEntryDrop (a, b) -> z2 "OpEntryDrop" a b
+   | OpClear -> Some ("OpClear", [])
+   | OpReserve a -> Some (Printf.sprintf "(OpReserve %s)" (coq_z a), [])
+   | OpTryReserve a -> Some (Printf.sprintf "(OpTryReserve %s)" (coq_z a), [])
+   | OpShrinkTo a -> Some (Printf.sprintf "(OpShrinkTo %s)" (coq_z a), [])
+   | OpShrinkToFit -> Some ("OpShrinkToFit", [])
+   | OpRetain (l, b) -> Some (Printf.sprintf "(OpRetain %s %s)" (coq_list coq_z l) (coq_z b), [])
+   | OpExtend l -> Some (Printf.sprintf "(OpExtend %s)" (coq_list coq_kv l), List.map (fun (e : kv) -> e.k_id) l)
+   | OpDrain n -> Some (Printf.sprintf "(OpDrain %d%%nat)" (int_of_nat n), [])
+   | OpExtractIf (l, n) -> Some (Printf.sprintf "(OpExtractIf %s %d%%nat)" (coq_list coq_z l) (int_of_nat n), [])
+   | OpIter -> Some ("OpIter", [])
+   | OpIterFold n -> Some (Printf.sprintf "(OpIterFold %d%%nat)" (int_of_nat n), [])
+   | OpLen -> Some ("OpLen", [])
+   | OpCapacity -> Some ("OpCapacity", [])
+   | OpDropMap -> Some ("OpDropMap", [])
+   | OpSetInsert (a, b) -> z2 "OpSetInsert" a b
+   | OpSetReplace (a, b) -> z2 "OpSetReplace" a b
+   | OpSetTake a -> z1 "OpSetTake" a
+   | OpSetRemove a -> z1 "OpSetRemove" a
+   | OpSetToggle (a, b) -> z2 "OpSetToggle" a b
+   | _ -> None)
+let selftest_out : (out_channel * out_channel) option =
+  (match Sys.getenv_opt "HV_SELFTEST" with
+   | Some pfx when pfx <> "" -> Some (open_out (pfx ^ ".v"), open_out (pfx ^ ".expected"))
+   | _ -> None)
+let selftest_count = ref 0
+let selftest_max = 40
+let selftest_emit (gw : int) (tsize : z) (talign : z) (nd : bool) (gf : bool) (hash_of : z -> z option) (refuse : bool)
+      (t : kv table) (op : map_op) (stepno : int) =
+  (match selftest_out, coq_op op with
+   | Some (cv, ce), Some (optxt, opkeys) when !selftest_count < selftest_max && stepno mod 7 = 3 && List.length t.ctrl <= 300 ->
+     incr selftest_count;
+     let keys = List.sort_uniq compare (List.map string_of_z (opkeys @ List.concat (List.map (fun o -> match o with Some (e : kv) -> [e.k_id] | None -> []) t.slots))) in
+     let hl = List.map (fun ks -> let k = zs ks in (k, hash_of k)) keys in
+     let cb b = if b then "true" else "false" in
+     if !selftest_count = 1 then
+       output_string cv "From Coq Require Import ZArith List.\nImport ListNotations.\nFrom HB Require Import RsPrelude Sse2 Gen Group Raw Map Digest.\nOpen Scope Z_scope.\n";
+     Printf.fprintf cv "Eval vm_compute in (map_step_digest %d %s %s %s %s %s %s %s %s).\n" gw (coq_z tsize) (coq_z talign) (cb nd) (cb gf)
+       (coq_list (fun (k, h) -> Printf.sprintf "(%s, %s)" (coq_z k) (match h with Some x -> "Some " ^ coq_z x | None -> "None")) hl)
+       (cb refuse) (coq_table t) optxt;
+     let d = map_step_digest (zi gw) tsize talign nd gf hl refuse t op in
+     output_string ce (String.concat " " (List.map string_of_z d) ^ "\n");
+     flush cv; flush ce
+   | _ -> ())
+
 let () =
   if Sys.argv.(1) = "arith" then (arith_mode Sys.argv.(2); exit 0);
   let file = Sys.argv.(1) in
@@ -1157,7 +1227,10 @@ let () =
                    | _ -> RActRemoveEntry) in
                  raw_step cfg.backend cfg.tsize cfg.talign cfg.needs_drop rehash_guard_unconditional (hash_of panic_key) refuse tpre (zarg 1) act
              end
-             else step tpre op in
+             else begin
+               selftest_emit cfg.gw cfg.tsize cfg.talign cfg.needs_drop rehash_guard_unconditional (hash_of panic_key) refuse tpre op !steps;
+               step tpre op
+             end in
            (match model_result with
             | Fail e ->
               say "C-MISMATCH %s: model stops with %s but the implementation returned [%s]; pre=%s" where (err_text e) ret_s (dump_text pre)
